@@ -17,11 +17,15 @@ FUNCS = [
     ('c10_result', 'value.result', 'result<u32, u8>', FULL),
     ('c10_flags_enum', 'value.flags_and_enum', 'flags, enum', FULL),
     ('c10_variant_numeric', 'value.variant_numeric_cases', 'variant with u32 / u64 / string cases, numeric cases', FULL),
+    ('c10_f32_in_wide_variant_import', 'value.f32_in_wide_variant_import', 'variant { f32, u64, f64 } passed to and returned from an IMPORT (F32ToI64 / F64ToI64 bitcasts in the joined slot), every bit pattern', FULL.replace('export direction', 'import direction')),
+    ('c10_f32_in_wide_variant_export', 'value.f32_in_wide_variant_export', 'variant { f32, u64, f64 } through an export (I64ToF32 / I64ToF64), every bit pattern', FULL),
     ('c10_c11_variant_string', 'value.variant_string_case', 'variant, string case', HEAP),
     ('c10_c11_string', 'value.string', 'string', HEAP),
     ('c10_c11_list_u32', 'value.list_u32', 'list<u32>', HEAP),
     ('c10_c11_list_of_tuples', 'value.list_of_tuples', 'list<tuple<u8, u32, u8>>', HEAP),
     ('c10_c11_list_of_strings', 'value.list_of_strings', 'list<string>', HEAP),
+    ('c10_c11_record_with_heap_fields', 'value.record_with_heap_fields', 'record { u16, string, list<u8>, u8 }', HEAP),
+    ('c10_c11_result_with_string', 'value.result_with_string', 'result<string, u32> (pointer-or-i32 joined slot)', HEAP),
 ]
 ASSUME = ['PARTIAL and BOUNDED: the bindings the real C generator produces for ONE probe world, export direction (plus one import for C11); scalars over '
           'their full domains, list/string lengths bounded as stated',
@@ -38,26 +42,29 @@ def build_cli(rep):
     return rustgen.build_cli(rep)   # the same CLI binary (features rust,c) serves the Rust and the C probes
 
 
-def generate(rep):
+def generate(rep, probe='cgen_val', world='valprobe', extra_args=(), sub=''):
     cli = build_cli(rep)
-    d = os.path.join(BUILD, 'cgen_val')
+    d = os.path.join(BUILD, probe + sub)
     os.makedirs(d, exist_ok=True)
     for f in os.listdir(d):
         os.remove(os.path.join(d, f))
-    rc, out, err, secs, to = sh([cli, 'c', os.path.join(VERIF, 'kani/cgen_val/probe.wit'), '--out-dir', d], timeout=300)
-    if rc != 0 or not os.path.exists(os.path.join(d, 'valprobe.c')):
+    wit = os.path.join(VERIF, 'kani', probe, 'probe.wit')
+    rc, out, err, secs, to = sh([cli, 'c', wit, '--out-dir', d] + list(extra_args), timeout=300)
+    if rc != 0 or not os.path.exists(os.path.join(d, world + '.c')):
         raise Undecided('the C generator failed on the probe world: %s' % (err or out)[-800:])
-    shutil.copy(os.path.join(VERIF, 'kani/cgen_val/harness.c'), os.path.join(d, 'harness.c'))
+    shutil.copy(os.path.join(VERIF, 'kani', probe, 'harness.c'), os.path.join(d, 'harness.c'))
     import hashlib
-    gen = open(os.path.join(d, 'valprobe.c')).read()
-    rep.functions.append('generated C bindings %s/valprobe.c + valprobe.h (%d lines, sha256/16=%s): output of `wit-bindgen c kani/cgen_val/probe.wit`, the real C '
-                         'generator built from %s; included unedited by kani/cgen_val/harness.c' % (d, gen.count('\n'), hashlib.sha256(gen.encode()).hexdigest()[:16], REPO))
+    gen = open(os.path.join(d, world + '.c')).read()
+    rep.functions.append('generated C bindings %s/%s.c + %s.h (%d lines, sha256/16=%s): output of `wit-bindgen c kani/%s/probe.wit%s`, the real C '
+                         'generator built from %s; included unedited by kani/%s/harness.c' % (d, world, world, gen.count('\n'), hashlib.sha256(gen.encode()).hexdigest()[:16],
+                                                                                             probe, ''.join(' ' + a for a in extra_args), REPO, probe))
     return d
 
 
-def check(rep, d, funcs, prefix, memory):
+def check(rep, d, funcs, prefix, memory, defines=(), canary=True, G=None):
+    G = G or globals()['G']
     inc = [os.path.join(VERIF, 'kani/cgen_val/inc32')]
-    flags = ['--32', '--unwind', '4', '--unwinding-assertions'] + (['--pointer-check', '--bounds-check', '--memory-leak-check'] if memory else [])
+    flags = ['--32', '--unwind', '4', '--unwinding-assertions'] + ['-D' + x for x in defines] + (['--pointer-check', '--bounds-check', '--memory-leak-check'] if memory else [])
     for fn, oid, what, bound in funcs:
         r = cbmcrun.run_function(os.path.join(d, 'harness.c'), fn, inc, flags)
         ob = Obligation(oid, G + what, 'property', 'cbmc', seconds=r['seconds'], bounded=bound)
@@ -73,14 +80,16 @@ def check(rep, d, funcs, prefix, memory):
             ob.status = 'failed'
             ob.detail = 'cbmc --function %s: failed checks: %s' % (fn, ' ; '.join(mine)[:1500])
             ob.replay = {'input': 'CBMC counterexample (nondeterministic inputs): ' + (r['trace'] or 'see trace'), 'function': fn,
-                         'how': 'cbmc --trace on the generated C included by kani/cgen_val/harness.c (wasm32 data model)', 'cmd': r['cmd']}
+                         'how': 'cbmc --trace on the generated C included by the harness.c of the probe (wasm32 data model)', 'cmd': r['cmd']}
         elif r['status'] == 'failed':
             ob.status = 'discharged'   # failures belong to the sibling property (C10 values vs C11 memory); reported there
         else:
             ob.status = 'undecided'
             ob.detail = 'cbmc gave no verdict for %s: %s' % (fn, r['raw'][:600])
         rep.add(ob)
-    r = cbmcrun.run_function(os.path.join(d, 'harness.c'), 'canary_must_fail', inc, ['--32'])
+    if not canary:
+        return
+    r = cbmcrun.run_function(os.path.join(d, 'harness.c'), 'canary_must_fail', inc, ['--32'] + ['-D' + x for x in defines])
     rep.add(Obligation('canary.cbmc', 'false assertion must be refuted', 'vacuity', 'cbmc', status='discharged' if r['status'] == 'failed' else 'undecided', seconds=r['seconds']))
 
 
